@@ -20,9 +20,12 @@ Verdict(e) ==
        "after " \o ToString(b[1] - 1) \o " edits, " \o b[2] \o " gives " \o e.steps[b[1]][b[2]]
        \o " instead of " \o Out(StateAfter(e.hist, b[1] - 1), b[2])
 
+\* the single defects this history reached (and that were therefore judged)
+Singles(e) == {x \in AllDefects : \E i \in DOMAIN e.steps : Defects(StateAfter(e.hist, i - 1)) = {x}}
+
 VARIABLE ti
 TInit == ti = 1 /\ st = Clean /\ hist = <<>>
 TNext == /\ ti <= Len(Traces)
-         /\ PrintT(<<"VERDICT", Traces[ti].tid, Verdict(Traces[ti])>>)
+         /\ PrintT(<<"VERDICT", Traces[ti].tid, Verdict(Traces[ti]), SetToSeq(Singles(Traces[ti]))>>)
          /\ ti' = ti + 1 /\ UNCHANGED <<st, hist>>
 =============================================================================
